@@ -3,6 +3,7 @@ package main
 import (
 	"encoding/hex"
 	"fmt"
+	"os"
 	"runtime/debug"
 	"sort"
 	"strings"
@@ -71,8 +72,9 @@ func libCall(fn string, in []byte, text string, flags uint32) (outcome string) {
 		ti := *tx.TxIn[0]
 		ti.ScriptSig = sig
 		tx.TxIn = []*btc.TxIn{&ti}
-		tx.Spent_outputs = []*btc.TxOut{{Value: 50e8, Pk_script: pk}}
+		tx.TxVerVars = nil
 		tx.AllocVerVars()
+		tx.Spent_outputs = []*btc.TxOut{{Value: 50e8, Pk_script: pk}}
 		if script.VerifyTxScript(pk, &script.SigChecker{Amount: 50e8, Idx: 0, Tx: &tx}, flags) {
 			return "true"
 		}
@@ -127,7 +129,16 @@ func runLib(cs *Case) (res Result) {
 	libSetup()
 	l := cs.Lib
 	outc := map[string]int{}
+	finish := func() {
+		var ks []string
+		for k, v := range outc {
+			ks = append(ks, fmt.Sprintf("%s=%d", k, v))
+		}
+		sort.Strings(ks)
+		res.Outcome = strings.Join(ks, ",")
+	}
 	for idx, s := range l.Ins {
+		fmt.Fprintf(progressOut, "{\"p\":%d}\n", idx)
 		var in []byte
 		text := ""
 		if l.Text {
@@ -174,21 +185,19 @@ func runLib(cs *Case) (res Result) {
 				st = g.text
 			}
 			fn, loc, _ := site(st, false)
-			res.Viol = &Violation{Key: "lib/" + l.Fn + "/hang@" + fn, Event: idx, Stack: st,
+			res.Viol = &Violation{Key: "lib/" + l.Fn + "/hang", Event: idx, Stack: st,
 				What: fmt.Sprintf("%s did not return within %v (at %s, %s); input %s", l.Fn, watchdog, fn, loc, s)}
 			res.Fatal = true
+			finish()
 			return
 		}
 	}
-	var ks []string
-	for k, v := range outc {
-		ks = append(ks, fmt.Sprintf("%s=%d", k, v))
-	}
-	sort.Strings(ks)
-	res.Outcome = strings.Join(ks, ",")
+	finish()
 	res.Reached = true
 	return
 }
+
+var progressOut *os.File
 
 // ---------------------------------------------------------------------------
 // families (parent side)
@@ -202,7 +211,11 @@ type libGen struct {
 func (g *libGen) add(fn, family string, flags uint32, text bool, in string) {
 	k := fmt.Sprint(fn, "|", family, "|", flags)
 	c := g.cur[k]
-	if c == nil || len(c.Lib.Ins) >= 256 {
+	lim := 256
+	if strings.Contains(family, "count-pair") {
+		lim = 32
+	}
+	if c == nil || len(c.Lib.Ins) >= lim {
 		c = &Case{ID: g.next(), Kind: "lib", Family: family, Tmpl: fn, Lib: &LibCall{Fn: fn, Flags: flags, Text: text}}
 		g.cur[k] = c
 		g.cases = append(g.cases, c)
@@ -236,7 +249,10 @@ func (g *libGen) bytesFamilies(fn, tname string, pl []byte, fields []field, wide
 		red := []cval{}
 		for _, v := range countValues(1, false) {
 			switch v.name {
-			case "0", "1", "fd:ffff", "fe:2^32-1", "ff:2^32", "ff:2^62+1", "ff:2^63", "ff:2^64-1":
+			// (no counts near 2^32 here: a loop of that many cheap iterations takes
+			// about as long as the watchdog, which would make the verdict depend on
+			// the machine; 2^62+1 iterations never finish anywhere)
+			case "0", "1", "fd:ffff", "ff:2^62+1", "ff:2^63", "ff:2^64-1":
 				red = append(red, v)
 			}
 		}
